@@ -368,6 +368,21 @@ structure SendPost (S : List UInt8) (b : Int) (h : Half) (used : Int) (r0 : Cont
   count : s.half.pages - h.pages = s.used - used ∧
           s.used - used = ((s.half.saved.length + s.half.queue.length : Nat) : Int) -
             ((h.saved.length + h.queue.length : Nat) : Int) - (if r0.live then 0 else 1)
+  /-- nothing queued is lost: a queued page is still queued or has been handed over -/
+  cover : s.closed = false → r0.seq + r0.bytes.length ≤ s.nextSeq ∧ ∀ p ∈ h.queue, p ∈ s.half.queue ∨ pend p ≤ s.nextSeq
+  /-- nothing is added to the queue -/
+  sub : ∀ p ∈ s.half.queue, p ∈ h.queue
+  /-- the half connection is closed only behind a chunk that carries `end` -/
+  finEnd : s.closed = true → (r0.fin = true ∧ s.nextSeq = r0.seq + r0.bytes.length) ∨
+           (∃ p ∈ h.queue, p.fin = true ∧ pend p = s.nextSeq)
+
+theorem ChainP.snoc_end {S b} : ∀ {ps : List Page} {p : Page} {s e : Int}, ChainP S b s (ps ++ [p]) e → pend p = e
+  | [], p, s, e, h => by
+    obtain ⟨_, _, h3⟩ := h
+    exact h3
+  | q :: rest, p, s, e, h => by
+    obtain ⟨_, _, h3⟩ := h
+    exact ChainP.snoc_end h3
 
 theorem lastFin_concat (l : List Cont) (c : Cont) : lastFin (l ++ [c]) = c.fin := by
   simp [lastFin]
@@ -492,7 +507,25 @@ theorem sendToConnection_spec (S : List UInt8) (b : Int) (hb : 0 ≤ b) (h : Hal
         rw [hpc] at hcount3
         cases hlive : r0.live <;>
           simp only [hlive, Bool.false_eq_true, if_false, if_true, ↓reduceIte] at hcount3 ⊢ <;>
-          (constructor <;> omega) }
+          (constructor <;> omega)
+      cover := fun hc => by simp at hc
+      sub := fun p hp => by simp [closeHalf] at hp
+      finEnd := fun _ => by
+        rcases List.eq_nil_or_concat taken with ht | ⟨L, pl, ht⟩
+        · left
+          subst ht
+          simp only [List.map_nil, List.append_nil] at hfin
+          rw [lastFin_concat] at hfin
+          simp only [ChainP] at htch
+          exact ⟨hfin, by simp only; omega⟩
+        · right
+          rw [List.concat_eq_append] at ht
+          subst ht
+          refine ⟨pl, by rw [hqsplit]; simp, ?_, ChainP.snoc_end htch⟩
+          have : sv.map Page.toCont ++ [r0] ++ (L ++ [pl]).map Page.toCont =
+              (sv.map Page.toCont ++ [r0] ++ L.map Page.toCont) ++ [pl.toCont] := by simp
+          rw [this, lastFin_concat] at hfin
+          exact hfin }
   · rw [if_neg hfin]
     refine Res.Ok.intro ?_
     exact {
@@ -535,6 +568,15 @@ theorem sendToConnection_spec (S : List UInt8) (b : Int) (hb : 0 ≤ b) (h : Hal
         rw [hpc] at hcount3
         cases hlive : r0.live <;>
           simp only [hlive, Bool.false_eq_true, if_false, if_true, ↓reduceIte] at hcount3 ⊢ <;>
-          (constructor <;> omega) }
+          (constructor <;> omega)
+      cover := fun _ => ⟨by simp only; omega, fun p hp => by
+        rw [hqsplit] at hp
+        rcases List.mem_append.mp hp with hp | hp
+        · exact Or.inr (htch.mem p hp).2.1
+        · exact Or.inl (by simp only [hq3]; exact hp)⟩
+      sub := fun p hp => by
+        simp only [hq3] at hp
+        rw [hqsplit]; exact List.mem_append_right _ hp
+      finEnd := fun hc => by simp at hc }
 
 end Gp.Reasm
